@@ -11,6 +11,16 @@ import pytrs
 from pytrs import Tract
 from pytrs.tractwriter import TractWriter
 
+
+def safely(rep, what, f, *a):
+    """run one oracle check; an exception escaping the library is itself a failing input for the observables"""
+    try:
+        return f(rep, *a)
+    except Exception as e:  # noqa
+        rep.violation('failing-input', {'check': what, 'args': [str(x)[:300] for x in a], 'why': f'raised {type(e).__name__}: {e}'})
+        return None
+
+
 RULE = ("parsed descriptions (lots, acreages, flags with context, multi-line text, commas and quotes in descriptions) x "
         "subsets / orders of attribute names (all of Tract.ATTRIBUTES plus unknown names) x header options x write/append "
         "modes x both writers; non-trivial = at least one tract and two attributes; distinct by (text, attributes, mode)")
@@ -111,7 +121,7 @@ def run(ctx):
         nice = r.chance(1, 3)
         mode = r.choice(['w', 'a'])
         pre = r.chance(1, 2)
-        n = check(rep, text, cfg, atts, nice, mode, pre)
+        n = safely(rep, 'export', check, text, cfg, atts, nice, mode, pre) or 0
         rep.count()
         if n >= 1 and len(atts) >= 2:
             rep.nontrivial((text, tuple(atts), nice, mode, pre))
